@@ -15,6 +15,9 @@ Driver of C13.  Ops (one per line):
 * `begin vseq <signer> <reqmac> <request_time> <req>` / `vmsg <buf> <rdok> <parseok> <macok>` … / `end`
       ONE `TSigVerifier` fed a sequence of messages; the driver threads the model's `Verifier`
       (`Verifier.verify` per message = `Verifier.verifySeq` over the block)
+* `begin mseq <signer> <reqmac> <request_time> <reqid> <kinds>` / `mmsg <kind> <buf> <rdok> <parseok> <macok>` … / `end`
+      a history of messages received by the real `DnsMultiplexer` for ONE outstanding signed request
+      (`muxStep` per message = `muxRun` over the block); answers `ok <mac> <time>` / `err` / `drop`
 
 `<signer>` = `<name>/<alg bits>/<fudge>/<macok>/<keyid>` where `macok` is the verdict of the real
 HMAC (`hmac::verify(key, tbs, mac-in-the-message)`) evaluated by the harness and `keyid` names the
@@ -25,8 +28,8 @@ chain) and `<journal>` only tell the harness how to set the real objects up; the
 namespace HickoryVerif.Drv.C13
 open HickoryVerif HickoryVerif.Drv HickoryVerif.Tsig
 
-/-- the verifier of the `vseq` block being replayed, if any -/
-abbrev State := Option Verifier
+/-- the verifier of the `vseq` / `mseq` block being replayed, if any, and the request id -/
+abbrev State := Option (Verifier × Nat)
 def init : State := none
 
 def parseBool (s : String) : Option Bool :=
@@ -113,17 +116,33 @@ def step (s : State) (toks : List String) : State × String :=
   | ["begin", "vseq", sg, reqmac, qt, _req] =>
     match parseSigner sg, parseHex reqmac, qt.toNat? with
     | some sg, some reqmac, some qt =>
-      (some { signer := sg, previous := reqmac, remoteTime := 0, requestTime := qt }, "ok")
+      (some ({ signer := sg, previous := reqmac, remoteTime := 0, requestTime := qt }, 0), "ok")
     | _, _, _ => (none, "bad-op")
+  | ["begin", "mseq", sg, reqmac, qt, reqid, _kinds] =>
+    match parseSigner sg, parseHex reqmac, qt.toNat?, reqid.toNat? with
+    | some sg, some reqmac, some qt, some reqid =>
+      (some ({ signer := sg, previous := reqmac, remoteTime := 0, requestTime := qt }, reqid), "ok")
+    | _, _, _, _ => (none, "bad-op")
+  | ["mmsg", _kind, buf, rdok, pok, macok] =>
+    match s, parseHex buf, parseBool rdok, parseBool pok, parseBool macok with
+    | some (v, rid), some buf, some rdok, some pok, some macok =>
+      let v1 : Verifier := { v with signer := { v.signer with macOK := fun _ _ => macok } }
+      match muxStep v1 rid buf rdok pok with
+      | .ok (v', .ok) => (some (v', rid), s!"ok {toHex v'.previous} {v'.remoteTime}")
+      | .ok (v', .err) => (some (v', rid), "err")
+      | .ok (v', .dropped) => (some (v', rid), "drop")
+      | .err => (some (v, rid), "err")
+      | .panic m => (some (v, rid), "panic " ++ m)
+    | _, _, _, _, _ => (s, "bad-op")
   | ["end"] => (none, "ok")
   | ["vmsg", buf, rdok, pok, macok] =>
     match s, parseHex buf, parseBool rdok, parseBool pok, parseBool macok with
-    | some v, some buf, some rdok, some pok, some macok =>
+    | some (v, rid), some buf, some rdok, some pok, some macok =>
       let v1 : Verifier := { v with signer := { v.signer with macOK := fun _ _ => macok } }
       match v1.verify buf rdok pok with
-      | .ok v' => (some v', s!"ok {toHex v'.previous} {v'.remoteTime}")
-      | .err => (some v, "err")
-      | .panic m => (some v, "panic " ++ m)
+      | .ok v' => (some (v', rid), s!"ok {toHex v'.previous} {v'.remoteTime}")
+      | .err => (some (v, rid), "err")
+      | .panic m => (some (v, rid), "panic " ++ m)
     | _, _, _, _, _ => (s, "bad-op")
   | _ => (s, (handle toks).getD "bad-op")
 
